@@ -15,6 +15,37 @@ def parsePre (s : String) : List (Nat × Bytes) :=
     | [n, v] => some (nat! n, bytesOfHex v)
     | _ => none)
 
+/-- tweaks of the reply between `from_packet` and `apply_from_error`: mid= tok= typ= -/
+def applyReplyTweaks (s : String) (m : Packet) : Res Packet :=
+  if s == "_" then .ok m else
+  (s.splitOn ",").foldl (fun (acc : Res Packet) kv => acc.bind (fun m =>
+    match kv.splitOn "=" with
+    | ["mid", n] => .ok { m with header := { m.header with mid := nat! n } }
+    | ["tok", h] => m.setToken (bytesOfHex h)
+    | ["typ", t] => .ok { m with header := m.header.setType (mtypeOf (nat! t)) }
+    | _ => .ok m)) (.ok m)
+
+/-- tweaks of the request message: rmid= rtok= -/
+def applyReqTweaks (s : String) (m : Packet) : Res Packet :=
+  if s == "_" then .ok m else
+  (s.splitOn ",").foldl (fun (acc : Res Packet) kv => acc.bind (fun m =>
+    match kv.splitOn "=" with
+    | ["rmid", n] => .ok { m with header := { m.header with mid := nat! n } }
+    | ["rtok", h] => m.setToken (bytesOfHex h)
+    | _ => .ok m)) (.ok m)
+
+def errStep (r0 : Request) (resp1 : Res (Option Packet)) (msg1 : Res Packet)
+    (c : Option ResponseType) (text : Bytes) : String :=
+  match resp1, msg1 with
+  | .ok resp1, .ok msg1 =>
+    let r1 := { r0 with response := resp1, message := msg1 }
+    -- the harness passes the message through `String::from_utf8_lossy`; all
+    -- generated messages are valid UTF-8 so the bytes are unchanged
+    match r1.applyFromError c text with
+    | .ok (r2, ok) => s!"{ok} " ++ (match r2.response with | some m => dumpPacket m | none => "none")
+    | _ => "panic"
+  | _, _ => "panic"
+
 def resp (ws : List String) : String :=
   match ws with
   | "new" :: spec =>
@@ -30,14 +61,13 @@ def resp (ws : List String) : String :=
     | .ok p =>
       match Request.fromPacket p 7 with
       | .ok r0 =>
-        let r1 := { r0 with response := r0.response.map (fun m =>
-          (parsePre pre).foldl (fun (m : Packet) (kv : Nat × Bytes) => m.addOption (optNum (toString kv.1)) kv.2) m) }
+        let resp1 : Res (Option Packet) := match r0.response with
+          | none => .ok none
+          | some m =>
+            (applyReplyTweaks pre ((parsePre pre).foldl (fun (m : Packet) (kv : Nat × Bytes) =>
+              m.addOption (optNum (toString kv.1)) kv.2) m)).map some
         let c := if code == "none" then none else some (respOfByte (nat! code))
-        -- the harness passes the message through `String::from_utf8_lossy`; all
-        -- generated messages are valid UTF-8 so the bytes are unchanged
-        match r1.applyFromError c (bytesOfHex msg) with
-        | .ok (r2, ok) => s!"{ok} " ++ (match r2.response with | some m => dumpPacket m | none => "none")
-        | _ => "panic"
+        errStep r0 resp1 (applyReqTweaks pre r0.message) c (bytesOfHex msg)
       | _ => "panic"
     | _ => "panic"
   | _ => "bad-op"
